@@ -22,7 +22,9 @@
   operands of a non-associative operator have level `< L`; the operand of a prefix operator of level `L` has level
   `≤ L`; the operand of a postfix operator has level `≤ 1`; BETWEEN bounds are below the comparison level (so at most
   the `|` level); the elements of an IN list, the argument of UNNEST and a subscript are arbitrary expressions (they
-  are delimited by brackets).
+  are delimited by brackets); so are the operand, conditions and results of `CASE … END` (delimited by the keywords
+  CASE WHEN THEN ELSE END), the three arguments of `IF(…)`, the elements of an array literal `[…]` and the operand of
+  `CAST(… AS type)`; these are atoms (level 0).
 
   The file also defines what the theorems of C07 talk about: the projection `proj : Token → Tok'` (kind class +
   value; positions, trivia, keyword case and the `<>` / `!=` spelling are forgotten) and the token sequence
@@ -117,10 +119,20 @@ def precOK : Expr → Bool
   | .inUnnest _ e a => precOK e && decide (level e < 9) && precOK a
   | .sel e _ => precOK e && decide (level e ≤ 1)
   | .index e _ i => precOK e && decide (level e ≤ 1) && precOK i
+  | .caseE o c t ws el => precOKo o && precOK c && precOK t && precOKw ws && precOKo el
+  | .ifE c t e => precOK c && precOK t && precOK e
+  | .array es => precOKs es
+  | .cast e _ => precOK e
   | _ => true
 def precOKs : Exprs → Bool
   | .nil => true
   | .cons e es => precOK e && precOKs es
+def precOKw : Whens → Bool
+  | .nil => true
+  | .cons c t ws => precOK c && precOK t && precOKw ws
+def precOKo : OExpr → Bool
+  | .none => true
+  | .some e => precOK e
 end
 
 /-- the grouping of `e` is the one the table defines -/
@@ -196,9 +208,22 @@ def yield : Expr → List Tok'
   | .index e none i => yield e ++ (T .lbrack :: (yield i ++ [T .rbrack]))
   | .index e (some (_, spelled)) i =>
     yield e ++ (T .lbrack :: ⟨.ident, spelled⟩ :: T .lparen :: (yield i ++ [T .rparen, T .rbrack]))
+  | .caseE o c t ws el =>
+    T .case_ :: (yieldO [] o ++ (T .when_ :: (yield c ++ (T .then_ :: (yield t ++ (yieldW ws ++ (yieldO [T .else_] el ++ [T .end_])))))))
+  | .ifE c t e => T .if_ :: T .lparen :: (yield c ++ (T .comma :: (yield t ++ (T .comma :: (yield e ++ [T .rparen])))))
+  | .array .nil => [T .lbrack, T .rbrack]
+  | .array (.cons e es) => T .lbrack :: (yield e ++ (yields es ++ [T .rbrack]))
+  | .cast e ns => T .cast :: T .lparen :: (yield e ++ (T .as_ :: (pathToks ns ++ [T .rparen])))
 def yields : Exprs → List Tok'
   | .nil => []
   | .cons e es => T .comma :: (yield e ++ yields es)
+def yieldW : Whens → List Tok'
+  | .nil => []
+  | .cons c t ws => T .when_ :: (yield c ++ (T .then_ :: (yield t ++ yieldW ws)))
+/-- an optional expression behind the tokens `pre` (nothing for the operand of CASE, `ELSE` for a `CaseElse`) -/
+def yieldO (pre : List Tok') : OExpr → List Tok'
+  | .none => []
+  | .some e => pre ++ yield e
 end
 
 /-! ## the normal form of parser-built trees, and what may follow an expression -/
@@ -239,6 +264,13 @@ def rawSigned : Expr → Bool
   | .int none raw | .float none raw => unsignedRaw? raw == some false
   | _ => true
 
+/-- the path of a `NamedType` as `parseType` builds it: not empty, and not a single scalar type name (that one is a
+`SimpleType`) -/
+def nfT : List Bytes → Bool
+  | [] => false
+  | [a] => (simpleNameOf a).isNone
+  | _ => true
+
 mutual
 /-- the shapes `parseUnary` and `parseSelector` build (sign folding, path merging) and the place where the
 spelling of an identifier decides the production (`[OFFSET(…)]`: the word in front of the `(` reads as its keyword).
@@ -259,10 +291,20 @@ def nf : Expr → Bool
   | .sel e _ => nf e && !isIdentOrPath e
   | .index e none i => nf e && nf i
   | .index e (some (k, spelled)) i => nf e && nf i && posKwName spelled == some k
+  | .caseE o c t ws el => nfo o && nf c && nf t && nfw ws && nfo el
+  | .ifE c t e => nf c && nf t && nf e
+  | .array es => nfs es
+  | .cast e ns => nf e && nfT ns
   | _ => true
 def nfs : Exprs → Bool
   | .nil => true
   | .cons e es => nf e && nfs es
+def nfw : Whens → Bool
+  | .nil => true
+  | .cons c t ws => nf c && nf t && nfw ws
+def nfo : OExpr → Bool
+  | .none => true
+  | .some e => nf e
 end
 
 def NF (e : Expr) : Prop := nf e = true
